@@ -1,4 +1,5 @@
 import functools
+import io
 import typing as t
 import warnings
 from enum import Enum
@@ -47,23 +48,51 @@ class FileSystemArtifactStore(SerializedArtifactStore):
 
         return path
 
-    def _get_glob(self, node_id: NodeId) -> t.List[Path]:
-        return list(Path(self._ensure_dir()).glob(f'{node_id}.*'))
+    def _get_path(self, node_id: NodeId, fmt: DataFormat) -> Path:
+        return self._ensure_dir() / f'{node_id}.{fmt.value}'
+
+    def _find(self, node_id: NodeId) -> t.Optional[t.Tuple[Path, DataFormat]]:
+        """
+        Find the artifact file of exactly this node id (the id is not a glob pattern or a prefix)
+        """
+
+        for fmt in DataFormat:
+            path = self._get_path(node_id, fmt)
+
+            if path.is_file():
+                return path, fmt
+
+        return None
+
+    @staticmethod
+    def _is_binary(fmt: DataFormat) -> bool:
+        return isinstance(serializer_factory.from_data_format(fmt).get_default_io(), io.BytesIO)
 
     @dont_use_for_prod
     async def save(self, node_id: NodeId, data: NodeResultT, fmt: DataFormat = DataFormat.PICKLE) -> None:
-        if len(self._get_glob(node_id)):
+        if self._find(node_id) is not None:
             raise ArtifactFileAlreadyExists(f'Artifact file for {node_id} already exists')
 
-        with Path(self._ensure_dir() / f'{node_id}.{fmt.value}').open('wb') as file:  # noqa: ASYNC101
-            serializer_factory.from_data_format(fmt).dump(data, file)
+        path = self._get_path(node_id, fmt)
+        open_kwargs = dict(mode='wb') if self._is_binary(fmt) else dict(mode='w', encoding='utf-8')
+
+        try:
+            with path.open(**open_kwargs) as file:  # noqa: ASYNC101
+                serializer_factory.from_data_format(fmt).dump(data, file)
+        except BaseException:
+            # A failed dump must not leave a (partially written) artifact behind
+            path.unlink(missing_ok=True)
+            raise
 
     @dont_use_for_prod
     async def load(self, node_id: NodeId) -> NodeResultT:
-        glob = self._get_glob(node_id)
+        found = self._find(node_id)
 
-        if not len(glob):
+        if found is None:
             raise ArtifactFileDoesNotExist(f'Artifact file for {node_id} does not exist')
 
-        with Path(glob[0]).open('rb') as file:  # noqa: ASYNC101
-            return serializer_factory.from_extension(glob[0].suffix[1:]).load(file)
+        path, fmt = found
+        open_kwargs = dict(mode='rb') if self._is_binary(fmt) else dict(mode='r', encoding='utf-8')
+
+        with path.open(**open_kwargs) as file:  # noqa: ASYNC101
+            return serializer_factory.from_data_format(fmt).load(file)
